@@ -132,6 +132,17 @@ func (x *X) scanCall(fn *ssa.Function, cc *ssa.CallCommon, eff *loopEff, depth i
 		if b.Name() == "append" {
 			eff.allocs = true
 			st := cc.Args[0].Type().Underlying().(*types.Slice)
+			// append(x.f, ...) : the backing array of the slice stored in field f of x
+			if u, ok := cc.Args[0].(*ssa.UnOp); ok {
+				if fa, ok := u.X.(*ssa.FieldAddr); ok {
+					if pt, ok := fa.X.Type().Underlying().(*types.Pointer); ok {
+						if _, isS := pt.Elem().Underlying().(*types.Struct); isS {
+							eff.heap = append(eff.heap, heapEff{kind: "elemsOfField", typ: pt.Elem(), field: fa.Field, elemT: st.Elem(), base: fa.X})
+							return
+						}
+					}
+				}
+			}
 			eff.heap = append(eff.heap, heapEff{kind: "elems", elemT: st.Elem(), base: cc.Args[0]})
 		}
 		return
